@@ -268,3 +268,16 @@ func init() {
 		}
 	}
 }
+
+func init() {
+	// errors whose only use is a comparison with nil: what happens on the non-nil edge?
+	exploreExtra["errtestonly"] = func(p *Prog) {
+		for _, sf := range p.SSAFuncsOf(p.ModulePkgs()) {
+			for _, f := range allSSAFuncs(sf) {
+				for _, s := range errTestedOnly(f) {
+					fmt.Printf("%s\t%s\t%s\n", p.Pos(s.Pos()), ssaFuncName(f), s.String())
+				}
+			}
+		}
+	}
+}
